@@ -164,6 +164,8 @@ func (w *WaitGroup) Add(d int) {
 	if vs.Fine {
 		vs.SetRes(uintptr(unsafe.Pointer(w)))
 		vs.Sched(nil, "waitgroup add")
+	} else if d > 0 && vs.SpawnedSinceSched() {
+		vs.Sched(nil, "waitgroup add after go")
 	}
 	w.n += d
 	if w.n < 0 {
